@@ -14,6 +14,7 @@ import (
 	"strings"
 
 	"calcsa/absint"
+	"calcsa/engines/lexfsm"
 	"calcsa/load"
 	"calcsa/oblig"
 
@@ -725,6 +726,23 @@ func tlexer(p *load.Program, s *oblig.Set) {
 			s.Bad("X6", k, pos(acc), "after a rollback the lexer must answer from a field of its own of the cached entry stack[readp]; it answers "+got+": a replayed token would carry the state of the live lexer")
 		}
 	}
+	// the fields of the live lexer by role (its token, error and span bounds)
+	lexNames := map[string]string{}
+	if lt := sp.Pkg.Scope().Lookup("Lexer"); lt != nil {
+		if lst, ok := lt.Type().Underlying().(*types.Struct); ok {
+			for role, i := range lexfsm.LexerRoles(p) {
+				if i < lst.NumFields() {
+					lexNames[lst.Field(i).Name()] = role
+				}
+			}
+		}
+	}
+	lexFieldRole := func(name string) string {
+		if r, ok := lexNames[name]; ok {
+			return r
+		}
+		return name
+	}
 	// X6: Next caches exactly what the live lexer produced
 	nextFn := p.Method("lexer", "TLexer", "Next")
 	if nextFn == nil {
@@ -805,7 +823,7 @@ func tlexer(p *load.Program, s *oblig.Set) {
 						fk := absint.Key(es.F[i])
 						m := liveField.FindStringSubmatch(fk)
 						role := recRole[est.Field(i).Name()]
-						if m == nil || seenF[m[1]] || role == "" || !strings.EqualFold(m[1], role) {
+						if m == nil || seenF[m[1]] || role == "" || !strings.EqualFold(lexFieldRole(m[1]), role) {
 							okf = false
 						}
 						if m != nil {
